@@ -34,6 +34,9 @@ const c08Big = 100000000000
 type C8Fn1 struct {
 	Fail *int `json:"fail,omitempty"`
 	A, B int
+	// Pure: the closure calls only pure functions (the counting host function ptick is registered IsPure:true,
+	// the failure is the data dependent 12%(x-F)), so the optimizer flags it IsPure
+	Pure bool `json:",omitempty"`
 }
 type C8Pr1 struct {
 	Fail    *int   `json:"fail,omitempty"`
@@ -67,6 +70,10 @@ type C8Pipe struct {
 	S    *C8Stage `json:",omitempty"`
 	P    *C8Pipe  `json:",omitempty"`
 	Q    *C8Pipe  `json:",omitempty"` // second operand of + / cross / merge: a pipeline of its own
+	// list: how the stored list comes about: "" a literal of constants, "arg" a host list (value.NewList) passed as
+	// argument, "argreverse" arg.reverse(), "argeval" arg.eval(), "argappend" arg.append(last), "litargs" a
+	// list literal of int arguments - all of them lists with stored items (itemsPresent)
+	Stored string `json:",omitempty"`
 	Ctx  int      `json:",omitempty"` // through: the construct the list P passes through (c8CtxNames)
 	ID   int      `json:",omitempty"` // closure of cross / merge
 	F2   *C8Fn2   `json:",omitempty"` // cross: g(a,b)
@@ -97,6 +104,14 @@ func failWrap(fail *int, tickCall, body string) (string, bool) {
 }
 
 func (f *C8Fn1) Expr(id int) string {
+	if f.Pure {
+		t := fmt.Sprintf("ptick(%d,x)", id)
+		if f.Fail != nil {
+			// same meaning as the impure form: fails exactly for x = F, x*A+B otherwise
+			return fmt.Sprintf("x->%s*%d+%d+0*(12%%(x-%d))", t, f.A, f.B, *f.Fail)
+		}
+		return fmt.Sprintf("x->%s*%d+%d", t, f.A, f.B)
+	}
 	t := fmt.Sprintf("tick(%d,x)", id)
 	if s, ok := failWrap(f.Fail, t, fmt.Sprintf("x*%d+%d", f.A, f.B)); ok {
 		return "x->" + s
@@ -189,6 +204,22 @@ var c8CtxNames = []string{"", "try", "let", "if", "switch", "closure", "func", "
 
 func (p *C8Pipe) Expr() string { return p.expr(nil) }
 
+// arguments of the generated function (host values handed in by the harness)
+type c8Arg struct {
+	Name   string
+	IsList bool
+	L      []int
+	V      int
+}
+
+var c8ArgSink *[]c8Arg // collects the arguments while an expression is rendered (Case.ExprArgs)
+
+func c8NewArg(a c8Arg) string {
+	a.Name = fmt.Sprintf("a%d", len(*c8ArgSink)+1)
+	*c8ArgSink = append(*c8ArgSink, a)
+	return a.Name
+}
+
 // expr renders the pipeline; let bindings and func declarations of pass-through constructs are hoisted to the
 // top level of the expression (h), where the grammar accepts them
 func (p *C8Pipe) expr(h *[]string) string {
@@ -198,6 +229,28 @@ func (p *C8Pipe) expr(h *[]string) string {
 	case "numbers":
 		return fmt.Sprintf("numbers(%d)", p.N)
 	case "list":
+		if p.Stored != "" && c8ArgSink != nil && (len(p.L) > 0 || p.Stored == "arg" || p.Stored == "argeval") {
+			switch p.Stored {
+			case "arg":
+				return c8NewArg(c8Arg{IsList: true, L: p.L})
+			case "argeval":
+				return c8NewArg(c8Arg{IsList: true, L: p.L}) + ".eval()"
+			case "argreverse":
+				rev := make([]int, len(p.L))
+				for i, v := range p.L {
+					rev[len(p.L)-1-i] = v
+				}
+				return c8NewArg(c8Arg{IsList: true, L: rev}) + ".reverse()"
+			case "argappend":
+				return c8NewArg(c8Arg{IsList: true, L: p.L[:len(p.L)-1]}) + fmt.Sprintf(".append(%d)", p.L[len(p.L)-1])
+			case "litargs":
+				xs := make([]string, len(p.L))
+				for i, v := range p.L {
+					xs[i] = c8NewArg(c8Arg{V: v})
+				}
+				return "[" + strings.Join(xs, ",") + "]"
+			}
+		}
 		xs := make([]string, len(p.L))
 		for i, v := range p.L {
 			xs[i] = strconv.Itoa(v)
@@ -246,10 +299,25 @@ func (p *C8Pipe) expr(h *[]string) string {
 	}
 	panic("pipe kind " + p.Kind)
 }
-func (c *C8Case) Expr() string {
+func (c *C8Case) Expr() string { e, _ := c.ExprArgs(); return e }
+
+// ExprArgs: the expression and the arguments it is generated with and called on
+func (c *C8Case) ExprArgs() (string, []c8Arg) {
 	var h []string
+	var args []c8Arg
+	c8ArgSink = &args
 	pe := c.Pipe.expr(&h)
-	return strings.Join(h, " ") + c.exprWith(pe)
+	c8ArgSink = nil
+	return strings.Join(h, " ") + c.exprWith(pe), args
+}
+
+// c8Wire: expression plus arguments as one string for the evaluating child process
+func c8Wire(exp string, args []c8Arg) string {
+	if len(args) == 0 {
+		return exp
+	}
+	bs, _ := json.Marshal(args)
+	return "ARGS" + string(bs) + "\n" + exp
 }
 
 func (c *C8Case) exprWith(pe string) string {
@@ -449,6 +517,11 @@ func c8FG() *value.FunctionGenerator {
 		c8fg.AddStaticFunction("tick", c8Tick(1, 1))
 		c8fg.AddStaticFunction("tick2", c8Tick(2, 1))
 		c8fg.AddStaticFunction("tick2b", c8Tick(2, 2))
+		// the same counter registered as a PURE function: a closure that calls only it is flagged IsPure by the
+		// optimizer, so demand can be counted on code paths reserved for pure functions
+		pt := c8Tick(1, 1)
+		pt.IsPure = true
+		c8fg.AddStaticFunction("ptick", pt)
 		// a host function that hands its argument on (a list passes through it unconsumed)
 		c8fg.AddStaticFunction("pass", funcGen.Function[value.Value]{
 			Func:   func(st funcGen.Stack[value.Value], cs []value.Value) (value.Value, error) { return st.Get(0), nil },
@@ -460,14 +533,37 @@ func c8FG() *value.FunctionGenerator {
 }
 
 // c8Eval evaluates the expression on the real implementation; false = did not return within the limit
-func c8Eval(exp string, limit time.Duration) c8Obs {
+func c8Eval(wire string, limit time.Duration) c8Obs {
+	exp := wire
+	var args []c8Arg
+	if strings.HasPrefix(wire, "ARGS") {
+		i := strings.Index(wire, "\n")
+		if err := json.Unmarshal([]byte(wire[4:i]), &args); err != nil {
+			return c8Obs{Kind: "generr", Err: "arguments: " + err.Error()}
+		}
+		exp = wire[i+1:]
+	}
+	names := make([]string, len(args))
+	vals := make([]value.Value, len(args))
+	for i, a := range args {
+		names[i] = a.Name
+		if a.IsList {
+			items := make([]value.Value, len(a.L))
+			for k, v := range a.L {
+				items[k] = value.Int(v)
+			}
+			vals[i] = value.NewList(items...)
+		} else {
+			vals[i] = value.Int(a.V)
+		}
+	}
 	f, ok := c8fn[exp]
 	if !ok {
 		c8mu.Lock()
 		c8log = nil
 		c8mu.Unlock()
 		var err error
-		f, _, err = c8FG().Generate(exp)
+		f, _, err = c8FG().Generate(exp, names...)
 		if err != nil {
 			return c8Obs{Kind: "generr", Err: err.Error()}
 		}
@@ -497,7 +593,7 @@ func c8Eval(exp string, limit time.Duration) c8Obs {
 					o = c8Obs{Kind: "err", Err: fmt.Sprint("panic: ", r)}
 				}
 			}()
-			v, err := f(funcGen.NewEmptyStack[value.Value]())
+			v, err := f(funcGen.NewStack[value.Value](vals...))
 			switch {
 			case err != nil:
 				o = c8Obs{Kind: "err", Err: err.Error()}
@@ -958,6 +1054,9 @@ func (p *C8Pipe) shape() string {
 		}
 		return "numbers(n)"
 	case "list":
+		if p.Stored != "" {
+			return "stored(" + p.Stored + ")"
+		}
 		return "list"
 	case "stage":
 		return p.P.shape() + "." + p.S.Kind
@@ -999,6 +1098,7 @@ type c8Job struct {
 	want      string
 	needCalls c8Calls
 	exp       string
+	wire      string // exp with the arguments the child process has to pass
 	obs       c8Obs
 	have      bool
 	first     string // what happened in the default configuration when the case had to be repeated on one CPU
@@ -1076,7 +1176,8 @@ func (r *c8Run) run(c *C8Case) {
 		r.sum.Skipped["oracle-undecided-within-cap"]++
 		return
 	}
-	r.jobs = append(r.jobs, &c8Job{c: c, need: need, want: want, needCalls: needCalls, exp: c.Expr()})
+	exp, args := c.ExprArgs()
+	r.jobs = append(r.jobs, &c8Job{c: c, need: need, want: want, needCalls: needCalls, exp: exp, wire: c8Wire(exp, args)})
 }
 
 // c8Observe: one observation of the implementation, preferring the sequential mode
@@ -1162,7 +1263,7 @@ func (r *c8Run) runChildren(jobs []*c8Job, pinned bool, dir string) {
 		in := c8ChildIn{FirstFinal: firstFinal}
 		firstFinal = true
 		for _, j := range jobs {
-			in.Exprs = append(in.Exprs, j.exp)
+			in.Exprs = append(in.Exprs, j.wire)
 			in.Multi = append(in.Multi, j.c.conc())
 			// merge reads its operands on goroutines which go on evaluating closures after the call has returned
 			// until their list yields again (never, behind a filter that lets nothing more through)
@@ -1743,6 +1844,38 @@ func (c *C8Case) allIds() []int {
 	return ids
 }
 
+var c8StoredKinds = []string{"arg", "argreverse", "argeval", "argappend", "litargs"}
+
+func seqInts(n int) []int {
+	l := make([]int, n)
+	for i := range l {
+		l[i] = i
+	}
+	return l
+}
+
+// c8Stored replaces the source of the main chain by a list with STORED items (0..n-1, so that it agrees with
+// numbers(n) on what the stages see) and, if pure, makes the map closures pure functions
+func c8Stored(p *C8Pipe, kind string, n int, pure bool) *C8Pipe {
+	q := clonePipe(p)
+	leaf := q
+	for leaf.P != nil {
+		leaf = leaf.P
+	}
+	if kind == "litargs" && n > 8 {
+		n = 8
+	}
+	*leaf = C8Pipe{Kind: "list", L: seqInts(n), Stored: kind}
+	if pure {
+		q.walk(func(x *C8Pipe) {
+			if x.Kind == "stage" && x.S.Kind == "map" {
+				x.S.F1.Pure = true
+			}
+		})
+	}
+	return q
+}
+
 // c8Wrap puts the pass-through construct ctx around the k-th sub-pipeline (counted over all prefixes and operands)
 func c8Wrap(p *C8Pipe, k int, ctx int) *C8Pipe {
 	q := clonePipe(p)
@@ -1919,6 +2052,19 @@ func c8Corpus() []*C8Case {
 		{Pipe: c8Cross(c8St(c8Src("numbers", 3), stMap(5, 1, 0)), c8St(c8Src("numbers", 2), stMap(6, 1, 0))), Term: &C8Term{Kind: "size"}},
 		{Pipe: c8Cross(c8St(c8Src("numbers", 3), stMap(5, 1, 0)), c8St(c8Src("numbers", 0), stMap(6, 1, 0))), Term: &C8Term{Kind: "first"}},
 		{Pipe: c8Cross(c8St(c8Src("numbers", 0), stMap(5, 1, 0)), long(6)), Term: &C8Term{Kind: "size"}},
+		// stored items (host list argument, list literal of arguments, eval/reverse/append results) under a PURE
+		// map closure: still lazy - no closure call for a list that is only built, nothing behind the decisive element
+		{Pipe: c8Stored(failAt(big(), 7), "arg", 60, true), Term: &C8Term{Kind: "first"}, Note: "pure closure, stored items: failure behind the decisive element"},
+		{Pipe: c8St(c8Stored(failAt(big(), 7), "arg", 60, true), stTop(3)), Term: &C8Term{Kind: "size"}, Note: "pure closure, stored items: failure behind the decisive element"},
+		{Pipe: c8Stored(failAt(big(), 5), "arg", 60, true), Term: &C8Term{Kind: "none"}, Note: "pure closure, stored items: built only"},
+		{Pipe: c8Stored(big(), "arg", 2000, true), Term: &C8Term{Kind: "first"}},
+		{Pipe: c8Stored(big(), "arg", 2000, true), Term: &C8Term{Kind: "none"}},
+		{Pipe: c8Stored(failAt(big(), 6), "litargs", 8, true), Term: &C8Term{Kind: "present", ID: 20, P1: &C8Pr1{Kind: "eq", T: 2}}, Note: "pure closure, stored items: failure behind the decisive element"},
+		{Pipe: c8Stored(failAt(big(), 9), "argreverse", 60, true), Term: &C8Term{Kind: "indexWhere", ID: 20, P1: &C8Pr1{Kind: "eq", T: 3}}, Note: "pure closure, stored items: failure behind the decisive element"},
+		{Pipe: c8Stored(failAt(big(), 9), "argeval", 60, true), Term: &C8Term{Kind: "contains", X: 4}, Note: "pure closure, stored items: failure behind the decisive element"},
+		{Pipe: c8Stored(failAt(big(), 9), "argappend", 60, true), Term: &C8Term{Kind: "containsAll", XS: []int{4, 1}}, Note: "pure closure, stored items: failure behind the decisive element"},
+		{Pipe: c8Stored(failAt(big(), 2), "arg", 60, true), Term: &C8Term{Kind: "first"}, Note: "pure closure, stored items: failure behind the decisive element"},
+		{Pipe: c8Stored(failAt(big(), 0), "arg", 60, true), Term: &C8Term{Kind: "first"}, Note: "pure closure, stored items: failure AT the decisive element"},
 		// list needle ~ behind a stage that lets nothing more through after the decisive element
 		// (a containsAllItems that notices "all found" only with the next element evaluates the whole source)
 		{Pipe: c8St(c8St(c8Src("numbers", 20000), stMap(1, 1, 0)), stAccept(2, C8Pr1{Kind: "lt", T: 4})), Term: &C8Term{Kind: "containsAll", XS: []int{3, 1}}},
@@ -2024,6 +2170,38 @@ func cmdC08(seed int64, tier, outDir string) {
 				for _, id := range pick {
 					for _, v := range c8FailVariants(b, id, (j+bi)%2 == 1) {
 						run.run(v)
+					}
+				}
+			}
+		}
+	}
+	// stored-item sources x pure / impure map closures, every shape
+	for ti, tp := range c8Templates() {
+		for ki, kind := range c8StoredKinds {
+			if tier != "thorough" && ki != ti%5 && ki != (ti+2)%5 {
+				continue
+			}
+			for _, pure := range []bool{true, false} {
+				j := (ti*5 + ki*7) % 24
+				lazy := c8Stored(tp.build(j), kind, 60, pure)
+				var t *C8Term
+				pipe := lazy
+				if ts := c8Consumers(lazy, j); len(ts) > 0 && (ti+ki)%3 != 0 {
+					t = ts[(ti+ki)%len(ts)]
+				} else {
+					closed, cts := c8Closed(lazy, j%7)
+					pipe, t = closed, cts[(ti+ki)%len(cts)]
+				}
+				b := &C8Case{Pipe: pipe, Term: cloneTerm(t)}
+				run.run(b)
+				if ki == ti%5 {
+					run.run(&C8Case{Pipe: clonePipe(pipe), Term: &C8Term{Kind: "none"}})
+				}
+				if pure {
+					for _, v := range c8FailVariants(b, 1, false) {
+						if strings.HasSuffix(v.Note, "+1") || strings.HasSuffix(v.Note, "+3") || strings.HasSuffix(v.Note, "-1") || tier == "thorough" {
+							run.run(v)
+						}
 					}
 				}
 			}
